@@ -423,7 +423,7 @@ GROUPS.append(Group('solveRecursive_check', 'h_sr_check', enforce='CspSolver_sol
 GROUPS.append(Group('addIneq', 'h_addIneq', enforce='CspSolver_addIneq', replace=('ghost_constr_push',), min_props=5))
 GROUPS.append(Group('addEq', 'h_addEq', enforce='CspSolver_addEq', replace=('CspSolver_addIneq',), min_props=3))
 GROUPS.append(Group('solve_attach', 'h_attach', enforce='CspSolver_solve_attach', replace=('ConstrSet_setBit',), loop_contracts=True, min_props=5, expect_loop_props=1, timeout=1800))
-GROUPS.append(Group('solveRecursive', 'h_sr_outer', enforce='CspSolver_solveRecursive_outer',
+GROUPS.append(Group('solveRecursive', 'h_sr_outer', enforce='CspSolver_solveRecursive_outer', tier='thorough',
                     replace=('CspSolver_solveRecursive', 'CspSolver_solveRecursive_check', 'CspSolver_getBitVal', 'Domain_empty', 'Domain_clearBit'),
                     loop_contracts=True, min_props=10, expect_loop_props=1, timeout=7200))
 PROPERTIES = {'C20': [g.name for g in GROUPS if g.name != 'makeArcConsistent']}
